@@ -32,7 +32,7 @@ class Column(Sequence):
 
     def __getitem__(self, key):
         if isinstance(key, slice):
-            return tuple(getter(self) for getter in self._vars(key))
+            return tuple(getter(self) for getter in self._vars[key])
         return self._vars[key](self)
 
     @property
